@@ -737,9 +737,13 @@ Section Reassembly.
   Qed.
 
   (* ---- grouping (C08) ---- *)
+  (* proc k: edge type k is one of sorted_edge_inds (= toposort_edges), i.e. its accepted matches are
+     handed to assign_connections_to_instances.  The code does this for `processed edges` (BottomUp.v);
+     for a rooted tree that is every edge type (processed_all below). *)
+  Variable proc : nat -> bool.
   Definition peak := (nat * nat)%type.               (* (animal, node) *)
   Definition adj (p q : peak) : Prop :=
-    exists k, nth_error edges k = Some (snd p, snd q) /\ accepted k (fst p) (fst q).
+    exists k, proc k = true /\ nth_error edges k = Some (snd p, snd q) /\ accepted k (fst p) (fst q).
   Definition conn : peak -> peak -> Prop := clos_refl_sym_trans peak adj.
 
   (* a predicted instance: slot j holds the peak of node j it contains (as the animal whose
@@ -759,17 +763,19 @@ Section Reassembly.
     nth_error output i = Some I -> nth_error output j = Some J -> member p I -> member p J -> i = j.
 
   (* ---- the labelled animals ---- *)
-  Definition vedge (a i j : nat) : Prop := In (i, j) edges /\ vis a i = true /\ vis a j = true.
+  Definition vedge (a i j : nat) : Prop :=
+    (exists k, proc k = true /\ nth_error edges k = Some (i, j)) /\ vis a i = true /\ vis a j = true.
   Definition vconn (a : nat) : nat -> nat -> Prop := clos_refl_sym_trans nat (vedge a).
 
   Lemma adj_iff a i b j :
     adj (a, i) (b, j) <-> a = b /\ (a < n_animals)%nat /\ vedge a i j.
   Proof.
     unfold adj, vedge. simpl. split.
-    - intros [k [Hk Hacc]]. apply (accepted_iff k _ _ _ Hk) in Hacc. simpl in Hacc.
-      apply nth_error_In in Hk. tauto.
-    - intros [-> [Hn [Hin [Hi Hj]]]]. apply In_nth_error in Hin. destruct Hin as [k Hk].
-      exists k. split; [exact Hk|]. apply (accepted_iff k _ _ _ Hk). simpl. auto.
+    - intros [k [Hp [Hk Hacc]]]. apply (accepted_iff k _ _ _ Hk) in Hacc. simpl in Hacc.
+      destruct Hacc as [-> [Hn [Hi Hj]]]. split; [reflexivity|]. split; [exact Hn|].
+      split; [exists k; auto|auto].
+    - intros [-> [Hn [[k [Hp Hk]] [Hi Hj]]]].
+      exists k. split; [exact Hp|]. split; [exact Hk|]. apply (accepted_iff k _ _ _ Hk). simpl. auto.
   Qed.
 
   Lemma conn_same_animal p q : conn p q -> fst p = fst q /\ vconn (fst p) (snd p) (snd q).
@@ -1075,15 +1081,16 @@ Section NonVacuous.
       + reflexivity.
   Qed.
 
-  Let conn1 := conn edges1 score1 (1 # 4) matching1.
-  Let adj1 := adj edges1 score1 (1 # 4) matching1.
+  Let proc1 := processed edges1.       (* = the edge types toposort_edges returns for 0 -> 1: edge type 0 *)
+  Let conn1 := conn edges1 score1 (1 # 4) matching1 proc1.
+  Let adj1 := adj edges1 score1 (1 # 4) matching1 proc1.
 
   Lemma ex_adj p q : adj1 p q <-> p = (0, 0)%nat /\ q = (0, 1)%nat.
   Proof.
     destruct p as [a i], q as [b j]. unfold adj1, adj, accepted. simpl. split.
-    - intros [k [Hk [[H|[]] _]]]. inversion H; subst.
+    - intros [k [_ [Hk [[H|[]] _]]]]. inversion H; subst.
       destruct k as [|k]; simpl in Hk; [inversion Hk; auto|destruct k; discriminate].
-    - intros [E1 E2]. inversion E1; inversion E2; subst. exists 0%nat. split; [reflexivity|].
+    - intros [E1 E2]. inversion E1; inversion E2; subst. exists 0%nat. split; [reflexivity|]. split; [reflexivity|].
       split; [left; reflexivity|]. exists (9 # 10). split; [reflexivity|]. unfold Qle. simpl. lia.
   Qed.
 
@@ -1131,11 +1138,11 @@ Section NonVacuous.
     exists n I, nth_error output1 n = Some I /\ member (0, 0)%nat I /\ member (0, 1)%nat I.
   Proof.
     destruct (reassembly_from_separation edges1 1 vis1 score1 (1 # 4) matching1
-                (fun k e _ _ => ex_optimal k e) (fun k e _ => ex_separated k e)
+                (fun k e _ _ => ex_optimal k e) (fun k e _ => ex_separated k e) proc1
                 output1 ex_components ex_complete ex_partition) as [_ H].
     destruct (H 0%nat 0%nat 1%nat) as [n [I [A [B [C _]]]]].
     - lia.
-    - unfold vedge. split; [left; reflexivity|split; reflexivity].
+    - unfold vedge. split; [exists 0%nat; split; reflexivity|split; reflexivity].
     - exists n, I. auto.
   Qed.
 End NonVacuous.
